@@ -558,7 +558,7 @@ func genC08() *rapid.Generator[*Spec] {
 			return s
 		}
 		in := &s.Injectors[k]
-		kind := x.pick([]string{"sharedset", "func", "value", "ivalue", "bind", "bind", "fields", "set", "inline", "inline2", "shared", "shared", "nest-control", "struct", "twinfunc", "twinfunc", "emptyset", "emptyinline", "emptynested"}, "extra")
+		kind := x.pick([]string{"sharedset", "genericfield", "func", "value", "ivalue", "bind", "bind", "fields", "set", "inline", "inline2", "shared", "shared", "nest-control", "struct", "twinfunc", "twinfunc", "emptyset", "emptyinline", "emptynested"}, "extra")
 		noShuffle := false
 		freshT := func() *Type { return Named(addFreshStruct(s, 0, x.fresh("U"))) }
 		if kind == "sharedset" && len(s.Injectors) > 1 {
@@ -671,6 +671,38 @@ func genC08() *rapid.Generator[*Spec] {
 			it := addItem(s, Item{Kind: "func", Pkg: 0, Name: x.fresh("ProvideU"), Out: freshT()})
 			s.Sets = append(s.Sets, Set{Pkg: 0, Name: x.fresh("USet"), Args: []Ref{RItem(it)}, AliasOf: -1})
 			in.Args = append(in.Args, RSet(len(s.Sets)-1))
+		case "genericfield":
+			// the same field of two instantiations of one generic struct, one
+			// selection needed and one superfluous (the two field objects share
+			// their declaration)
+			if len(v.FuncItems) == 0 {
+				kind = "func"
+				in.Args = append(in.Args, RItem(addItem(s, Item{Kind: "func", Pkg: 0, Name: x.fresh("ProvideU"), Out: freshT()})))
+				break
+			}
+			last := len(s.Pkgs) - 1 // importable from every package
+			s.Decls = append(s.Decls, Decl{Pkg: last, Name: x.fresh("GF"), Form: "struct", TParams: 1, Fields: []SField{{Name: "Tok", T: Basic("int")}, {Name: "V", T: &Type{K: "tparam", Basic: "P0"}}}})
+			gf := len(s.Decls) - 1
+			ua, ub := Named(addFreshStruct(s, last, x.fresh("UA"))), Named(addFreshStruct(s, last, x.fresh("UB")))
+			ga := &Type{K: "named", Decl: gf, Args: []*Type{ua}}
+			gb := &Type{K: "named", Decl: gf, Args: []*Type{ub}}
+			pga := addItem(s, Item{Kind: "func", Pkg: 0, Name: x.fresh("ProvideGA"), Out: ga})
+			pgb := addItem(s, Item{Kind: "func", Pkg: 0, Name: x.fresh("ProvideGB"), Out: gb})
+			fa := addItem(s, Item{Kind: "fields", Parent: ga, Fields: []string{"V"}})
+			fb := addItem(s, Item{Kind: "fields", Parent: gb, Fields: []string{"V"}})
+			// a provider the injector needs now takes the field of G[A] and the whole G[B]
+			cons := &s.Items[v.FuncItems[x.intn(0, len(v.FuncItems)-1, "gfconsumer")]]
+			if cons.Variadic {
+				cons.Params = append([]*Type{ua, gb}, cons.Params...)
+			} else {
+				cons.Params = append(cons.Params, ua, gb)
+			}
+			in = &s.Injectors[k]
+			extra := []Ref{RItem(pga), RItem(pgb), RItem(fa), RItem(fb)}
+			if x.pct(50, "gforder") {
+				extra = []Ref{RItem(fb), RItem(pgb), RItem(fa), RItem(pga)}
+			}
+			in.Args = append(in.Args, extra...)
 		case "emptyset":
 			// a set that provides nothing at all contributes nothing either
 			s.Sets = append(s.Sets, Set{Pkg: 0, Name: x.fresh("ESet"), Args: []Ref{}, AliasOf: -1})
